@@ -768,6 +768,14 @@ private:
 
     bool                            m_allowKeyFunction;
 
+    /**
+     * The current nesting of Expr() and UnaryExpr(), which is limited
+     * because the parser is recursive.
+     */
+    int                             m_nestingDepth;
+
+    enum { eMaximumNestingDepth = 1024 };
+
     // Static stuff here...
     static const XalanDOMString     s_emptyString;
 
